@@ -78,9 +78,29 @@ def make_harness(cfg, tw):
             iters = []
             real_acc = gmod.opf_accuracy
 
-            def acc_spy(labels, preds):
-                a = real_acc(labels, preds)
-                iters.append((a, snapshot(opf.subgraph)))
+            # the accuracy an iteration "achieved" is judged independently of the arguments the code passes to the
+            # criterion: true labels of the samples it just predicted (rows are identified by their tag) against
+            # the predictions it just made
+            alllabs = list(ltr) + list(lv)
+            last = {}
+            orig_predict = opf.predict
+
+            def predict_spy(X, *a, **k):
+                p = orig_predict(X, *a, **k)
+                last["X"], last["p"] = X, p
+                return p
+            opf.predict = predict_spy
+
+            def acc_spy(a1, a2):
+                a = real_acc(a1, a2)
+                true = a
+                X = last.get("X")
+                if isinstance(X, symnp.SArr) and X.ndim == 2:
+                    tags = [X._get((i, 0)) for i in range(X.shape[0])]
+                    if all(isinstance(t, (int, float)) and not core.is_sym(t) for t in tags):
+                        labs = symnp.SArr.from_list([alllabs[int(t)] for t in tags], dtype="i")
+                        true = real_acc(labs, last["p"])
+                iters.append((true, snapshot(opf.subgraph)))
                 return a
             sup.g.opf_accuracy = acc_spy
             err = None
@@ -92,6 +112,7 @@ def make_harness(cfg, tw):
                 err = "%s@%s: %s" % (type(ex).__name__, _site(ex, tw), str(ex)[:160])
             finally:
                 sup.g.opf_accuracy = real_acc
+                opf.__dict__.pop("predict", None)
             out.update(err=err, iters=iters, draws=draws, Xt=Xt, Yt=Yt, Xv=Xv, Yv=Yv)
         elif kind == "relevance":
             opf.fit(Xt, Yt)
